@@ -2,7 +2,7 @@
 
 Deductive tier: the algebraic core of ``calcQ`` (zero row sums, preserved off-diagonal sign, unit calibration at the
 motif probabilities; stationarity / detailed balance for symmetric exchangeabilities) is a short list of Lean 4 +
-Mathlib lemmas over ``Matrix (Fin n) (Fin n) Real`` (lean/C05_calcQ.lean, thorough tier only: ~2 min cold), stated
+Mathlib lemmas over ``Matrix (Fin n) (Fin n) Real`` (lean/C05_lemmas.lean.tmpl, both tiers: ~75 s cold, ~7 s warm), stated
 for a term extracted mechanically from the four-line numpy body when it stays inside the translatable table.
 Everything numerical -- P(t) row-stochastic, P(0)=I, P(s+t)=P(s)P(t), agreement of the expm back ends -- is numerical
 analysis of floating-point expm/eig and is decided only by bounded run-time contracts (bounded/C05.py, tol 1e-8)."""
@@ -11,7 +11,7 @@ import os
 
 def run(chk):
     only = getattr(chk, "only", None)
-    if (not only or "proof" in only) and chk.tier == "thorough":
+    if not only or "proof" in only:
         try:
             from contracts import C05_lean
             chk.guard(C05_lean.run_lean)
@@ -22,4 +22,4 @@ def run(chk):
     chk.assume("floating-point accuracy of expm/eig is not decided by any proof; tolerance 1e-8 in the bounded tier")
     chk.level = "other" if chk.obligations else "exploration"
     chk.explanation = ("bounded run-time contracts on every supplied model x parameter grid x lengths x expm settings; "
-                       "algebraic calcQ lemmas in Lean (thorough tier) when built")
+                       "algebraic calcQ lemmas (zero row sums, off-diagonal sign, calibration, stationarity, detailed balance) in Lean 4 + Mathlib over terms translated from both calcQ bodies")
